@@ -5,7 +5,8 @@
    The 2^31 - 2^17 bound on each submitted stream is part of the theorem: with a 32-bit
    sequence space and unbounded duplication/delay the statement is false without it. *)
 From Elvis Require Import Model.Base Model.U32 Model.Tcb Model.TcpNet
-  Proofs.TcbSafetyDefs Proofs.TcbSafetyEx Proofs.TcbSafetyThms Proofs.TcbLiveSys Proofs.TcbLiveThm Proofs.TcbLiveEnd Proofs.TcbLiveWinRound Proofs.TcbLiveLossRound.
+  Proofs.TcbSafetyDefs Proofs.TcbSafetyEx Proofs.TcbSafetyThms Proofs.TcbLiveSys Proofs.TcbLiveThm Proofs.TcbLiveEnd Proofs.TcbLiveWinRound Proofs.TcbLiveLossRound Proofs.TcbHeap.
+From Coq Require Import Permutation.
 Local Open Scope Z_scope.
 
 (* safety: in every reachable state of every closed trace (any interleaving of open / write /
@@ -213,3 +214,34 @@ Theorem C01_liveness_tail_loss_partial : forall (c : config) (s : sys) (a b : Z)
   delivered s' (other x) = delivered s (other x) ++ bytes /\ delivered s' x = delivered s x.
 Proof. exact tail_loss_explicit. Qed.
 Print Assumptions C01_liveness_tail_loss_partial.
+
+(* ---- the reassembly heap (std BinaryHeap<Segment> transcribed in Model/Tcb.v), heaps of ANY size.
+   [heap_ordered v]: every element is <= its parent in the model's order seg_le (reversed circular
+   comparison of sequence numbers, so the root carries the smallest sequence number).
+   [in_range base s]: the sequence number of s lies less than 2^31 after base - the circular order
+   is a total preorder only on such a half-space, so this hypothesis is part of the theorems. *)
+(* push (sift_up) keeps the heap ordered and adds exactly the pushed element *)
+Theorem C01_heap_push_ordered : forall (base : Z) (v : list segment) (x : segment),
+  Forall (in_range base) (x :: v) -> heap_ordered v ->
+  heap_ordered (heap_push v x) /\ Permutation (x :: v) (heap_push v x).
+Proof. exact heap_push_ordered. Qed.
+Print Assumptions C01_heap_push_ordered.
+
+(* pop (swap_remove, sift_down_to_bottom, sift_up) returns an element with the smallest sequence
+   number (a maximum of the model's order) and leaves an ordered heap *)
+Theorem C01_heap_pop_min : forall (base : Z) (v : list segment) (m : segment) (rest : list segment),
+  Forall (in_range base) v -> heap_ordered v -> heap_pop v = Some (m, rest) ->
+  (forall y, In y v -> seg_le y m = true /\ seg_key base m <= seg_key base y) /\
+  heap_ordered rest.
+Proof. exact heap_pop_min_explicit. Qed.
+Print Assumptions C01_heap_pop_min.
+
+(* pop preserves the multiset of elements (and fails only on the empty heap) *)
+Theorem C01_heap_multiset : forall (base : Z) (v : list segment),
+  Forall (in_range base) v -> heap_ordered v ->
+  match heap_pop v with
+  | Some (m, rest) => Permutation v (m :: rest)
+  | None => v = []
+  end.
+Proof. exact heap_multiset_explicit. Qed.
+Print Assumptions C01_heap_multiset.
